@@ -23,6 +23,17 @@ MUTATIONS = [
     ("C19", "put-spool-file-beside-root", [(FS, "tempfile.NamedTemporaryFile(dir=path.parent, delete=False)", "tempfile.NamedTemporaryFile(dir=self.root.parent, delete=False)")]),
 ]
 
+# found by a white-box adversary (notes/adversary/C19_miss*.md); silent before the sibling `srv2`, the decorated
+# dot components / judged NUL paths and the full method domain were added
+MUTATIONS += [
+    # containment decided by a string prefix: ("..", "srv2", "a") passes `normpath(local).startswith(str(root))`
+    ("C19", "adv-string-prefix-containment", [("@patch", "notes/adversary/C19_miss1.diff", 3)]),
+    # NUL bytes removed after the component filter: "..\0" becomes ".."
+    ("C19", "adv-nul-stripped-after-filter", [("@patch", "notes/adversary/C19_miss2.diff", 3)]),
+    # a new render_ipatch that writes without looking at the write flag
+    ("C19", "adv-ipatch-writes-without-write-permission", [("@patch", "notes/adversary/C19_miss3.diff", 3)]),
+]
+
 CONTROLS = [
     # refused paths answered 4.04 instead of 4.00: still an error response
     ("C19", "invalid-path-answered-4.04", [(FS, "class InvalidPathError(error.ConstructionRenderableError):\n    code = codes.BAD_REQUEST", "class InvalidPathError(error.ConstructionRenderableError):\n    code = codes.NOT_FOUND")]),
